@@ -294,6 +294,10 @@ def resume_part(ck):
 
 def main():
     ck = core.Check("C08", "fault_enumeration")
+    if ck.args.replay:
+        from vlib import sysrun as _sr
+
+        _sr.replay(ck, "C08", ck.args.replay)
     core.import_repo()
     import warnings
 
